@@ -348,4 +348,23 @@ theorem pathIntersect_length_le (close : P → P → Bool) (fr1 fr2 : List S) (l
 
 end pathint
 
+/-! ### the four points of a `Path.intersect` entry coincide -/
+section coherent
+variable {K : Type} [Field K] [LinearOrder K] [IsStrictOrderedRing K]
+
+/-- **`path.point(T) = seg.point(t)` for the entries of `Path.intersect`**: an entry carries `T = t2T(k, t)` with
+`k = index(seg)` (`pathIntersect_mem`); for length fractions that are non-negative and sum to 1, a segment of positive
+length and `0 < t ≤ 1` (with `T` strictly inside `(0,1)`; the ends are the `T = 0, 1` shortcuts), the search loop of
+`Path.point(T)` selects exactly segment `k` at parameter `t` — so `path.point(T)` IS `seg.point(t)`, and by the
+segment-level soundness theorems that is the other segment's point too. -/
+theorem entry_point_coherent (fr : List K) (hnn : ∀ l ∈ fr, 0 ≤ l) (hsum : fr.sum = 1) (k : ℕ) (l t T : K)
+    (hk : fr[k]? = some l) (hl : 0 < l) (ht0 : 0 < t) (ht1 : t ≤ 1) (hT : PathParam.t2T fr k t = some T)
+    (hT0 : 0 < T) (hT1 : T < 1) : PathParam.pointIdx fr T = some (k, t) := by
+  have hne : fr ≠ [] := by
+    intro h0; rw [h0] at hk; simp at hk
+  rw [C05.pointIdx_eq_T2t fr T hne]
+  exact C05.T2t_t2T fr hnn hsum k l t T hk hl ht0 ht1 hT hT0 hT1
+
+end coherent
+
 end SvgVerif.Props.C11
